@@ -1163,4 +1163,251 @@ example :
   decide
 
 
+/-! ### complete lines are never held back -/
+
+theorem no_nl_step (s : St) (o : Op) (h : '\n' ∉ cat s.buffer) : '\n' ∉ cat (step s o).buffer := by
+  cases o with
+  | write t d =>
+    simp only [step, doWrite]
+    cases hr : rsplitNl d with
+    | none =>
+      have := rsplitNl_none.mp hr
+      simp only [cat, List.flatten_append, List.flatten_cons, List.flatten_nil, List.append_nil,
+        List.mem_append, not_or] at h ⊢
+      exact ⟨h, this⟩
+    | some p =>
+      obtain ⟨b, a⟩ := p
+      have := rsplitNl_some_after hr
+      simpa [cat] using this
+  | flush t => simp [step, doFlush, cat]
+  | close => exact h
+  | fl =>
+    simp only [step, flStep]
+    split
+    · split <;> exact h
+    · exact h
+    · exact h
+    · split <;> exact h
+    · exact h
+    · exact h
+  | run => simp only [step, runStep]; split; exact h; split <;> exact h
+  | start => simp only [step]; split <;> exact h
+  | stop => simp only [step]; split <;> exact h
+  | newLoop => simp only [step]; split <;> exact h
+  | closeLoop => simp only [step]; split <;> exact h
+
+/-- **no_newline_in_buffer.**  The line buffer never contains a newline: everything up to the last
+    newline of a write is queued by that very write call; only an unfinished line waits for `flush()`. -/
+theorem no_newline_in_buffer (raw : Bool) (ops : List Op) : '\n' ∉ cat (runOps (init raw) ops).buffer := by
+  suffices h : ∀ s : St, '\n' ∉ cat s.buffer → '\n' ∉ cat (runOps s ops).buffer from h _ (by simp [init, cat])
+  intro s hs
+  induction ops generalizing s with
+  | nil => exact hs
+  | cons o os ih => exact ih _ (no_nl_step s o hs)
+
+/-! ### `close()`: everything flushed before it arrives, then the flush thread ends -/
+
+/-- text of the queue items behind the first `_Done` -/
+def afterDone : List Item → Text
+  | [] => []
+  | .done :: q => qText q
+  | .text _ :: q => afterDone q
+
+structure CInv (s : St) : Prop where
+  after : afterDone s.queue = []
+  has : hasDone s.queue = true ∨ flDone s.fl = true
+  drained : flDone s.fl = true → s.queue = [] ∨ s.fl = .exited
+  gone : s.fl = .exited → qText s.queue = []
+
+theorem cinv_flrun (s : St) (o : Op) (ho : o = .fl ∨ o = .run) (h : CInv s) : CInv (step s o) := by
+  obtain ⟨hafter, hhas, hdr, hgone⟩ := h
+  rcases ho with rfl | rfl
+  · simp only [step, flStep]
+    cases hf : s.fl with
+    | idle =>
+      simp only
+      have hhas' : hasDone s.queue = true := by
+        rcases hhas with h | h
+        · exact h
+        · simp [hf, flDone] at h
+      cases hq : s.queue with
+      | nil => rw [hq] at hhas'; simp [hasDone] at hhas'
+      | cons i q =>
+        rw [hq] at hafter hhas'
+        cases i with
+        | done =>
+          simp only [afterDone] at hafter
+          exact ⟨by
+            -- nothing but empty text behind the `_Done`
+            clear hhas' hq
+            induction q with
+            | nil => rfl
+            | cons x xs ih =>
+              cases x with
+              | done => simp only [qText] at hafter; simpa [afterDone] using hafter
+              | text t =>
+                simp only [qText, List.append_eq_nil_iff] at hafter
+                simpa [afterDone] using ih hafter.2,
+            Or.inr (by simp [flDone]), fun _ => Or.inr rfl, fun _ => hafter⟩
+        | text t =>
+          simp only [afterDone, hasDone] at hafter hhas'
+          cases t with
+          | nil => exact ⟨hafter, Or.inl hhas', by simp [hf, flDone], by simp [hf]⟩
+          | cons c cs =>
+            refine ⟨rfl, Or.inr ?_, fun _ => Or.inl rfl, by simp⟩
+            simp [flDone, drain_snd, hhas']
+    | batch txt dn =>
+      refine ⟨hafter, ?_, ?_, by simp⟩
+      · rcases hhas with h | h
+        · exact Or.inl h
+        · right; simpa [hf, flDone] using h
+      · intro hd
+        have : flDone s.fl = true := by simpa [hf, flDone] using hd
+        rcases hdr this with h | h
+        · exact Or.inl h
+        · rw [hf] at h; cases h
+    | ready lp txt dn =>
+      have hdn : dn = true → s.queue = [] := by
+        intro hd
+        rcases hdr (by simp [hf, flDone, hd]) with h | h
+        · exact h
+        · rw [hf] at h; cases h
+      cases lp with
+      | none =>
+        cases dn with
+        | true =>
+          have hq := hdn rfl
+          exact ⟨hafter, Or.inr (by simp [afterEmit, flDone]), fun _ => Or.inr (by simp [afterEmit]), fun _ => by simp [hq, qText]⟩
+        | false =>
+          refine ⟨hafter, ?_, by simp [afterEmit, flDone], by simp [afterEmit]⟩
+          rcases hhas with h | h
+          · exact Or.inl h
+          · simp [hf, flDone] at h
+      | some g =>
+        simp only
+        split
+        · cases dn with
+          | true =>
+            have hq := hdn rfl
+            exact ⟨hafter, Or.inr (by simp [afterEmit, flDone]), fun _ => Or.inr (by simp [afterEmit]), fun _ => by simp [hq, qText]⟩
+          | false =>
+            refine ⟨hafter, ?_, by simp [afterEmit, flDone], by simp [afterEmit]⟩
+            rcases hhas with h | h
+            · exact Or.inl h
+            · simp [hf, flDone] at h
+        · refine ⟨hafter, ?_, ?_, by simp⟩
+          · rcases hhas with h | h
+            · exact Or.inl h
+            · right; simpa [hf, flDone] using h
+          · intro hd
+            have : dn = true := by simpa [flDone] using hd
+            exact Or.inl (hdn this)
+    | relook g txt dn =>
+      refine ⟨hafter, ?_, ?_, by simp⟩
+      · rcases hhas with h | h
+        · exact Or.inl h
+        · right; simpa [hf, flDone] using h
+      · intro hd
+        have : flDone s.fl = true := by simpa [hf, flDone] using hd
+        rcases hdr this with h | h
+        · exact Or.inl h
+        · rw [hf] at h; cases h
+    | exited => exact ⟨hafter, hhas, hdr, hgone⟩
+  · simp only [step, runStep]
+    split
+    · exact ⟨hafter, hhas, hdr, hgone⟩
+    · split <;> exact ⟨hafter, hhas, hdr, hgone⟩
+
+theorem cinv_run (s : St) (ops : List Op) (ho : ∀ o ∈ ops, o = .fl ∨ o = .run) (h : CInv s) :
+    CInv (runOps s ops) := by
+  induction ops generalizing s with
+  | nil => exact h
+  | cons o os ih =>
+    exact ih _ (fun o' ho' => ho o' (by simp [ho'])) (cinv_flrun s o (ho o (by simp)) h)
+
+theorem alive_run (s : St) (ops : List Op) (hn : noClose ops = true)
+    (hs : hasDone s.queue = false ∧ flDone s.fl = false) :
+    hasDone (runOps s ops).queue = false ∧ flDone (runOps s ops).fl = false := by
+  induction ops generalizing s with
+  | nil => exact hs
+  | cons o os ih =>
+    have ho : o ≠ .close := by intro e; subst e; simp [noClose] at hn
+    have hn' : noClose os = true := by cases o <;> simp_all [noClose]
+    exact ih (step s o) hn' (alive_step s o ho hs)
+
+theorem afterDone_noDone {q : List Item} (h : hasDone q = false) (x : Item) :
+    afterDone (q ++ [x]) = [] ∧ (x = .done → hasDone (q ++ [x]) = true) := by
+  induction q with
+  | nil => cases x <;> simp [afterDone, hasDone, qText]
+  | cons i is ih =>
+    cases i with
+    | done => simp [hasDone] at h
+    | text t => simp only [hasDone] at h; simpa [afterDone, hasDone] using ih h
+
+/-- **close_delivers.**  Take any calm schedule without `close()`; then `flush()` and `close()` (the
+    `_Done` sentinel is queued) and let the loop and the flush thread run.  The flush thread terminates
+    (so `close()`'s `join()` returns), nothing is left in flight, and the output is exactly the text
+    of all write calls in lock-acquisition order. -/
+theorem close_delivers (raw : Bool) (ops : List Op) (t : Nat)
+    (hc : calm (init raw) ops = true) (hn : noClose ops = true) (n : Nat)
+    (hfuel : measure (runOps (init raw) (ops ++ [.flush t, .close])) ≤ n) :
+    let s := settle n (runOps (init raw) (ops ++ [.flush t, .close]))
+    s.fl = .exited ∧ quiescent s = true ∧ outText s.log = allText ops := by
+  intro s
+  obtain ⟨ops', h1, h2, -, h4⟩ := settle_is_calm_schedule n (runOps (init raw) (ops ++ [.flush t, .close]))
+  obtain ⟨hw, -⟩ := flrun_noWrites ops' h4
+  have hrun : s = runOps (init raw) (ops ++ [.flush t, .close] ++ ops') := by
+    show settle n _ = _
+    rw [h1, ← runOps_append]
+  have hcalm : calm (init raw) (ops ++ [.flush t, .close] ++ ops') = true := by
+    rw [calm_append, h2, calm_append, hc]; simp [calm, calmStep]
+  have hall : allText (ops ++ [.flush t, .close] ++ ops') = allText ops := by
+    rw [allText_append, allText_append, hw]
+    simp [allText_cons, opText]
+    simp [allText, writesOf]
+  -- the state right after `close`
+  have halive := alive_run (init raw) (ops ++ [.flush t]) (by simp [noClose_append, hn, noClose])
+    (by simp [init, hasDone, flDone])
+  have hc0 : CInv (runOps (init raw) (ops ++ [.flush t, .close])) := by
+    have e : ops ++ [.flush t, .close] = (ops ++ [.flush t]) ++ [.close] := by simp
+    rw [e, runOps_append]
+    simp only [runOps, step]
+    obtain ⟨ha, hb⟩ := afterDone_noDone halive.1 .done
+    refine ⟨ha, Or.inl (hb rfl), ?_, ?_⟩
+    · intro hd; rw [halive.2] at hd; cases hd
+    · intro he
+      have := halive.2; rw [he] at this; simp [flDone] at this
+  have hcs : CInv s := by rw [show s = _ from h1]; exact cinv_run _ ops' h4 hc0
+  have hset : settled s = true := settle_settles n _ hfuel
+  -- settled + a `_Done` somewhere ⇒ the thread has ended
+  have hex : s.fl = .exited := by
+    simp only [settled, Bool.and_eq_true, Bool.not_eq_true', List.isEmpty_iff] at hset
+    obtain ⟨-, hf⟩ := hset
+    cases hfl : s.fl <;> simp [flEnabled, hfl] at hf
+    · rcases hcs.has with h | h
+      · simp [hf, hasDone] at h
+      · simp [hfl, flDone] at h
+    · rfl
+  have hbuf : cat s.buffer = [] := by
+    rw [show s = _ from h1, flrun_buffer _ _ h4]
+    have e : ops ++ [.flush t, .close] = (ops ++ [.flush t]) ++ [.close] := by simp
+    rw [e, runOps_append, runOps_append]
+    simp [runOps, step, doFlush, cat]
+  have hq : quiescent s = true := by
+    simp only [settled, Bool.and_eq_true, Bool.not_eq_true', List.isEmpty_iff] at hset
+    rw [quiescent_iff]
+    exact ⟨hbuf, hcs.gone hex, by simp [hex, held], hset.1⟩
+  refine ⟨hex, hq, ?_⟩
+  rw [hrun] at hq ⊢
+  rw [exactly_once_after_flush raw _ hcalm hq, hall]
+
+example :
+    let ops : List Op := [.newLoop, .start, .write 0 ['a', '\n'], .fl, .write 1 ['b'], .write 2 ['c', '\n', 'd']]
+    calm (init false) ops = true ∧ noClose ops = true ∧
+    measure (runOps (init false) (ops ++ [.flush 0, .close])) ≤ 60 ∧
+    (settle 60 (runOps (init false) (ops ++ [.flush 0, .close]))).fl = .exited ∧
+    outText (settle 60 (runOps (init false) (ops ++ [.flush 0, .close]))).log = ['a', '\n', 'b', 'c', '\n', 'd'] := by
+  decide
+
+
 end Ptk.C20
